@@ -398,6 +398,8 @@ func main() {
 		removeBinary()
 	}
 
+	postCancelStorm(run)
+
 	run.Set("serve_return_latency", a.latencyStats())
 	n := int64(len(specs))
 	run.Require("serve_returned_server_closed", n*9/10)
